@@ -149,7 +149,7 @@ def check(ctx):
     funcs = [fi for fi in ctx.repo.funcs.values()
              if fi.module.name.startswith('pytrs.parser.')]
     n = pair_sites(ctx, funcs)
-    ctx.floor('flag append/extend sites', n, 25)
+    ctx.floor('flag append/extend sites', n, 12)
 
     # also: nothing appends to a *_flag_lines list on its own
     for fi in funcs:
@@ -199,7 +199,7 @@ def _staging_tables(ctx):
                       detail_bad="hand-off crosses two different attributes",
                       key=f"TBL|parse_safe|{c.func.value.attr}")
             handed.add(c.args[0].attr)
-    ctx.floor('parse_safe hand-offs', len(handed), 6)
+    ctx.floor('parse_safe hand-offs', len(handed), 4)
     env = ctx.fold.func_env(chunk)
     repl = env.get('replacement_attributes')
     if is_unknown(repl) or repl is None:
@@ -342,7 +342,7 @@ def _warnings(ctx):
     mod = ctx.repo.module('rgxlib.warnings')
     env = ctx.fold.module_env(mod.name)
     defined = {k: v for k, v in env.items() if isinstance(v, RegexVal) and v.module == mod.name}
-    ctx.floor('warning regexes', len(defined), 5)
+    ctx.floor('warning regexes', len(defined), 3)
     gf = ctx.repo.func('ChunkParser.gen_flags_chunk')
     fenv = ctx.fold.func_env(gf)
     table = fenv.get('rgx_and_how_to_handle')
